@@ -314,3 +314,10 @@ package ast
 //@   requires constmethod(node.left, GetType) == NodeTypeInt64 || (constmethod(node.left, GetType) == NodeTypeAnyType && constmethod(node.right, GetType) == NodeTypeInt64)
 //@   pure
 //@   ensures[typed-or-error] result1 == nil ==> result0 != nil
+
+//@ func (*SetFunctionNode).IsCompare
+//@   props C10 C01
+//@   pure
+//@   ensures result == (node.setFunction == SetFunctionAllOf || node.setFunction == SetFunctionAnyOf)
+// after the typing pass a set-function wrapper survives only for anyOf/allOf (count and isEmpty become their own nodes)
+//@ typeinv SetFunctionNode: 0 <= self.setFunction && self.setFunction <= 3
